@@ -199,6 +199,10 @@ impl<ErrType, R: CustomRead<ErrType>, BufferType: SliceWrapperMut<u8>, Alloc: Br
              _cmds: &mut [interface::StaticCommand],
              _mb: interface::InputPair,
              _mfv: &mut Alloc| ();
+        if buf.is_empty() {
+            // nothing can be delivered; the loop below would never see progress
+            return Ok(0);
+        }
         let mut output_offset: usize = 0;
         let mut avail_out = buf.len();
         let mut avail_in = self.input_len - self.input_offset;
